@@ -250,7 +250,7 @@ PROPS = {
 
 LEVEL_TEXT = {
     "C01": "Proof, modular. (1) `solve`: inductive invariant of the backward loop for EVERY number of periods (V[T-1] = E(CCV(none)), V[t] = E_t(CCV_t(V[t+1])), chronological list). (2) Period step of the real code (solve_continuous_problem + discrete problem) against the Bellman operator written from the statement, per model skeleton and period, for all grid sizes/bounds, parameters, value arrays and uninterpreted user functions: layout, value >= objective of every combination passing all filters and constraints, right helper objects (V of t+1, indexer of t+1, params); attained / -inf clauses deductive for skeletons without filter-restricted variables, bounded stand-in otherwise. (3) `get_utility_and_feasibility_function` = utility + beta * sum of weights * interpolated V' with exact discrete lookups. Interpolation kernel, coordinates and grids enter through their own contracts (C15, C16). JIT-independence is not decided.",
-    "C02": "Proof for skeletons without filter-restricted choices: the real `simulate`, for any number of agents, on- and off-grid states, arbitrary value arrays, every period (cut point at the period loop): reported choices are grid values, pass filters and constraints, the reported value is the objective of the reported choices, no feasible grid choice is better, period t reads V[t+1]. Skeletons with filter-restricted choices: bounded stand-in (sampled native runs), not counted as proved.",
+    "C02": "Proof for skeletons without filter-restricted choices and for two with them (retirement-filter, two-restricted-states-crossed-filters; segment_argmax and create_choice_segments used through their contracts): the real `simulate`, for any number of agents, on- and off-grid states, arbitrary value arrays, every period (cut point at the period loop): reported choices are grid values, pass filters and constraints, the reported value is the objective of the reported choices, no feasible grid choice is better, period t reads V[t+1]. The other two skeletons with filter-restricted choices (with a dense discrete choice / two period-dependent filters): bounded stand-in (sampled native runs), not counted as proved.",
     "C03": "Proof: period-0 rows are the initial states; period t+1 starts from the outcome of period t, which equals the model's transition functions at the same agent's period-t row (own parameters only); a stochastic next state is a label of the state's grid with positive probability in the row selected by the agent's dependency labels (the latter from the assumed PRNG contract). All agents counts; skeleton family incl. three with filter-restricted choices (create_choice_segments used through its contract); one skeleton bounded.",
     "C06": "Proof of the path statement (solve function called once with params, period t reads element t+1, entry-point wiring, one generated objective per period shared by solver and policy) plus C01/C02 clauses against the same per-period objective; the value equality at on-grid states is their argued composition.",
     "C07": "Proof per skeleton: template keys, entries = free arguments, shock shapes in signature order; every processed function receives exactly the values stored under its own name (shared parameter names across functions are distinct symbols); weights = shock row at the dependency labels in signature order.",
